@@ -145,6 +145,8 @@ func statements() []stmt {
 		build("stream-in-or", "SELECT svc, n FROM STREAM sw IN (g1, g2) WHERE svc IN (", sL, ", ", sL, ") OR n != ", sI, " ORDER BY n DESC LIMIT ", sLim),
 		build("stream-in-mixed", "SELECT * FROM STREAM sw IN g1 WHERE svc IN ('lit', ", sL, ", 'b') AND inst NOT IN (", sL, ")"),
 		build("stream-having", "SELECT * FROM STREAM sw IN g1 WHERE labels HAVING (", sL, ", ", sL, ") AND codes NOT HAVING ", sLI1, " LIMIT ", sLim),
+		build("stream-having-paren1", "SELECT * FROM STREAM sw IN g1 WHERE labels HAVING (", sL, ") OR codes NOT HAVING (", sLI, ") LIMIT ", sLim),
+		build("stream-match-paren1", "SELECT * FROM STREAM sw IN g1 WHERE msg MATCH((", sL, "), 'simple', 'OR') AND svc = ", sS),
 		build("stream-match", "SELECT svc, msg FROM STREAM sw IN g1 TIME = ", sT, " WHERE msg MATCH(", sL1, ") AND svc != ", sS),
 		build("stream-match-analyzer", "SELECT * FROM STREAM sw IN g1 WHERE msg MATCH((", sL, ", ", sL, "), 'simple', 'OR') OR (svc = ", sS, " AND n <= ", sI, ")"),
 		build("stream-paren", "SELECT * FROM STREAM sw IN g1 TIME < ", sT, " WHERE (svc = ", sS, " OR inst = ", sS, ") AND (n >= ", sI, " OR n < ", sI, ") OFFSET ", sLim),
